@@ -4,25 +4,6 @@ From Verif Require Import Base.I64 Base.Tactics Gen.CoreStr Gen.StdColl Gen.StdI
 From Coq Require Import ZifyBool ZifyNat.
 Open Scope Z_scope.
 
-(* the loop index stays inside i64: exactly the complement of known finding slice-step-overflow *)
-Definition slice_fits (n : Z) (s e : option Z) (k : Z) : Prop :=
-  k > 0 ->
-  let lo := py_adjust n k s true in
-  let hi := py_adjust n k e false in
-  lo + py_range_len lo hi k * k <= MAX64.
-
-Lemma slice_fits_small n s e k : 0 <= n -> k <> 0 -> n + Z.abs k <= MAX64 -> slice_fits n s e k.
-Proof.
-  intros Hn Hk0 Hs Hk. cbv zeta.
-  pose proof (py_adjust_range n k s true Hn Hk0) as [Hlo _]. specialize (Hlo Hk).
-  pose proof (py_adjust_range n k e false Hn Hk0) as [Hhi _]. specialize (Hhi Hk).
-  set (lo := py_adjust n k s true) in *. set (hi := py_adjust n k e false) in *.
-  unfold py_range_len. replace (k >? 0) with true by lia.
-  destruct (lo <? hi) eqn:E; [|lia].
-  pose proof (Z.mul_div_le (hi - lo - 1) k ltac:(lia)).
-  lia.
-Qed.
-
 Section Slice.
 Context {A : Type}.
 Variable bounds : mode -> Z -> option Z -> option Z -> option Z -> res (Z * Z * Z).
@@ -32,10 +13,9 @@ Hypothesis bounds_spec : forall m n s e k,
 
 Lemma slice_with_spec m (l : list A) s e k :
   zlen l <= MAX64 -> in_i64 k -> opt_in_i64 s -> opt_in_i64 e -> k <> 0 ->
-  slice_fits (zlen l) s e k ->
   slice_with bounds (S (length l)) m l s e (Some k) = OVal (py_slice l s e k).
 Proof.
-  intros Hl Hk Hs He Hk0 Hfit.
+  intros Hl Hk Hs He Hk0.
   assert (Hn : 0 <= zlen l) by (unfold zlen; lia).
   unfold slice_with. rewrite bounds_spec; [ | split; assumption | assumption | assumption | assumption | assumption].
   unfold py_slice. fold (zlen l).
@@ -43,21 +23,18 @@ Proof.
   pose proof (py_adjust_range (zlen l) k e false Hn Hk0) as [Hhi1 Hhi2].
   destruct (Z_lt_dec 0 k) as [Hpos|Hneg].
   - apply loop_up; try assumption; try lia.
-    + unfold zlen in *. lia.
-    + apply Hfit. lia.
+    unfold zlen in *. lia.
   - apply loop_down; try assumption; try lia; unfold zlen in *; lia.
 Qed.
 End Slice.
 
 Lemma list_slice_spec {A} m (l : list A) s e k :
   zlen l <= MAX64 -> in_i64 k -> opt_in_i64 s -> opt_in_i64 e -> k <> 0 ->
-  slice_fits (zlen l) s e k ->
   list_slice (S (length l)) m l s e (Some k) = OVal (py_slice l s e k).
 Proof. apply slice_with_spec. intros; now apply list_bounds_spec. Qed.
 
 Lemma str_slice_spec {A} m (l : list A) s e k :
   zlen l <= MAX64 -> in_i64 k -> opt_in_i64 s -> opt_in_i64 e -> k <> 0 ->
-  slice_fits (zlen l) s e k ->
   str_slice (S (length l)) m l s e (Some k) = OVal (py_slice l s e k).
 Proof. apply slice_with_spec. intros; now apply str_bounds_spec. Qed.
 
@@ -76,10 +53,9 @@ Proof. reflexivity. Qed.
 (* the two copies agree wherever the property speaks *)
 Lemma slice_copies_agree {A} m (l : list A) s e k :
   zlen l <= MAX64 -> in_i64 k -> opt_in_i64 s -> opt_in_i64 e ->
-  slice_fits (zlen l) s e k ->
   list_slice (S (length l)) m l s e (Some k) = str_slice (S (length l)) m l s e (Some k).
 Proof.
-  intros Hl Hk Hs He Hfit. destruct (Z.eq_dec k 0) as [->|Hk0]; [reflexivity|].
+  intros Hl Hk Hs He. destruct (Z.eq_dec k 0) as [->|Hk0]; [reflexivity|].
   now rewrite list_slice_spec, str_slice_spec.
 Qed.
 
